@@ -16,6 +16,8 @@ CONSTANTS
   EmitEvery = 20
   Faults = {"cutsrc"}
   WithBind = FALSE
+  AdvMsgs = {}
+  MaxAdv = 0
   MaxNow = 0
   WithBridge = TRUE
 INVARIANTS Emit NoViolation
